@@ -905,7 +905,13 @@ void AbstractDOMParser::endElement( const   XMLElementDecl&
     	XIncludeUtils xiu((XMLErrorReporter *) this);
 	    // process the XInclude node, then update the fCurrentNode with the new content
 	    if(xiu.parseDOMNodeDoingXInclude(fCurrentNode, fDocument, getScanner()->getEntityHandler()))
+        {
             fCurrentNode = fCurrentParent->getLastChild();
+            // the include may have been replaced by nothing (empty fallback) and have been the only child:
+            // then the parent is the current node again, as it is after its start tag
+            if(fCurrentNode == 0)
+                fCurrentNode = fCurrentParent;
+        }
     }
 }
 
